@@ -393,6 +393,8 @@ func init() {
 	add("C14", "A3")
 	registerRule(&RuleDef{ID: "S-CONNFLAG", Min: 2, Doc: "rpcClient == nil implies !connected: every statement dropping the connection clears connected in the same straight-line code; only connect() sets it", Run: ruleSCONNFLAG})
 	add("C16", "S-CONNFLAG")
+	registerRule(&RuleDef{ID: "P-IDX-RPC", Min: 5, Doc: "every index on the positional parameters of a request, in the rpc2 handlers of the built-in server and the helpers they hand the list to, has a dominating length test", Run: rulePIDXRPC})
+	add("C19", "P-IDX-RPC")
 	registerRule(&RuleDef{ID: "S-KEEPKIND", Min: 0, Doc: "a projection helper of the notification filters (*ovsdb.Row to *ovsdb.Row) returns nil only for a nil row, so the kind of a row update survives the projection", Run: ruleSKEEPKIND})
 	add("C10", "S-KEEPKIND")
 	add("C07", "S-KEEPKIND")
